@@ -183,7 +183,23 @@ func (p *Program) encodeFuncPass(fn *ssa.Function, pre map[string]*ghostCell, pr
 		}
 	}()
 	e.run()
+	e.theoryAxioms()
 	return e.out, e.ghostCells, e.projOrder
+}
+
+// theoryAxioms: facts about the abstract string functions, added only to the VCs that use them. Each is a
+// lemma over real strings proved by cvc5 on every run of the checks that list it (theory/strings/*.smt2).
+func (e *enc) theoryAxioms() {
+	if e.declared["strcontains"] {
+		for _, a := range []string{
+			"(forall ((a Str) (x Str)) (! (strcontains (strcat a x) x) :pattern ((strcat a x))))",
+			"(forall ((a Str) (b Str) (x Str)) (! (=> (strcontains a x) (strcontains (strcat a b) x)) :pattern ((strcontains (strcat a b) x))))",
+			"(forall ((a Str) (b Str) (x Str)) (! (=> (strcontains b x) (strcontains (strcat a b) x)) :pattern ((strcontains (strcat a b) x))))",
+		} {
+			e.out.Decls = append(e.out.Decls, "(assert "+a+")")
+		}
+		e.note("string containment: x occurs in a+x; what occurs in a or in b occurs in a+b (lemmas theory/strings/contains_*.smt2, proved by cvc5 over native strings)")
+	}
 }
 
 // ---- small helpers -----------------------------------------------------------------------
